@@ -128,6 +128,7 @@ func (d *Data) UnmarshalXML(dec *xml.Decoder, start xml.StartElement) error {
 		return err
 	}
 	d.CID = v.CID
+	d.MaxAge = 0
 	if v.MaxAge != nil {
 		d.MaxAge = time.Duration(*v.MaxAge) * time.Second
 	}
